@@ -38,7 +38,7 @@ type catchmentStruct struct {
 // output, or if a new sequence is added to a catchmentStruct which is already at capacity
 func rearrangeCatchment(nS *catchmentStruct, catchmentSize int) {
 	sort.SliceStable(nS.catchment, func(i, j int) bool {
-		return nS.catchment[i].distance < nS.catchment[j].distance || (nS.catchment[i].distance == nS.catchment[j].distance && nS.catchment[i].completeness > nS.catchment[j].completeness)
+		return closer(nS.catchment[i].distance, nS.catchment[j].distance) || (equidistant(nS.catchment[i].distance, nS.catchment[j].distance) && nS.catchment[i].completeness > nS.catchment[j].completeness)
 	})
 	nS.catchment = nS.catchment[0:catchmentSize]
 	nS.furthestDistance = nS.catchment[catchmentSize-1].distance
@@ -67,7 +67,7 @@ func findClosestN(query fastaio.EncodedFastaRecord, catchmentSize int, maxdist f
 		}
 
 		if maxdist != -1.0 {
-			if distance > maxdist {
+			if distance > maxdist || math.IsNaN(distance) {
 				continue
 			}
 		}
@@ -80,12 +80,12 @@ func findClosestN(query fastaio.EncodedFastaRecord, catchmentSize int, maxdist f
 				rearrangeCatchment(&neighbours, catchmentSize)
 			}
 
-		} else if distance < neighbours.furthestDistance {
+		} else if closer(distance, neighbours.furthestDistance) {
 			rs = resultsStruct{tname: target.ID, completeness: target.Score, distance: distance}
 			neighbours.catchment = append(neighbours.catchment, rs)
 			rearrangeCatchment(&neighbours, catchmentSize)
 
-		} else if distance == neighbours.furthestDistance && target.Score > neighbours.furthestCompleteness {
+		} else if equidistant(distance, neighbours.furthestDistance) && target.Score > neighbours.furthestCompleteness {
 			rs = resultsStruct{tname: target.ID, completeness: target.Score, distance: distance}
 			neighbours.catchment = append(neighbours.catchment, rs)
 			rearrangeCatchment(&neighbours, catchmentSize)
